@@ -17,6 +17,7 @@ type Env struct {
 	fr      *Frame
 	vars    map[string]Value
 	pos     bool // true: expression is a proof goal; false: an assumption
+	isOld   bool // evaluating in a past state: SSA-value name bindings are not valid
 	pkgName string
 	depth   int
 }
@@ -77,9 +78,12 @@ func (env *Env) lookupIdent(name string) (Value, bool) {
 	if v, ok := env.vars[name]; ok {
 		return v, true
 	}
+	if strings.HasPrefix(name, "g_") {
+		return env.e.ghostGlobal(env.st, name), true
+	}
 	if env.fr != nil {
 		// phis of the current block carry the source variable name
-		if env.fr.Block != nil {
+		if env.fr.Block != nil && !env.isOld {
 			for _, in := range env.fr.Block.Instrs {
 				if phi, ok := in.(*ssa.Phi); ok {
 					if phi.Comment == name {
@@ -92,7 +96,7 @@ func (env *Env) lookupIdent(name string) (Value, bool) {
 				}
 			}
 		}
-		if nr, ok := env.fr.Names[name]; ok {
+		if nr, ok := env.fr.Names[name]; ok && (!env.isOld || nr.IsAddr) {
 			if v, have := env.fr.Vals[nr.V]; have {
 				if nr.IsAddr {
 					if p, ok := v.(VPtr); ok && p.Loc != nil {
@@ -199,6 +203,7 @@ func (env *Env) eval(x Expr) Value {
 	case *EOld:
 		o := env.sub()
 		o.st = env.old
+		o.isOld = true
 		if env.old == nil {
 			env.fail("old() used without a pre-state")
 		}
@@ -974,6 +979,23 @@ func (env *Env) havocTarget(a AssignTarget, tag string, pre *State) {
 			}
 		}
 	case *EIdent:
+		if strings.HasPrefix(x.Name, "g_") {
+			e.nfresh++
+			env.st.Ghost[x.Name] = VInt{T: e.declare(fmt.Sprintf("%s~%s_%d", x.Name, tag, e.nfresh), BV64), Signed: true}
+			env.st.Writes["ghost:"+x.Name] = true
+			return
+		}
+		// a captured variable of a closure: havoc its cell
+		if env.fr != nil {
+			for _, fv := range env.fr.Fn.FreeVars {
+				if fv.Name() == x.Name {
+					if p, ok := env.fr.Vals[fv].(VPtr); ok && p.Loc != nil {
+						e.storeLoc(env.st, p.Loc, e.materialize(fmt.Sprintf("%s~%s", x.Name, tag), p.Elem))
+						return
+					}
+				}
+			}
+		}
 		// a pointer parameter: havoc the whole pointee
 		v := env.eval(x)
 		if p, ok := v.(VPtr); ok && p.Loc != nil {
